@@ -477,17 +477,17 @@ var ErrInjected = errors.New("bksim: injected read error")
 
 // Reader delivers data in tape-chosen chunks and can fail.
 type Reader struct {
-	Data      []byte
-	T         *tape.Tape
-	Profile   int // 0 whole, 1 single bytes, 2 up to 64, 3 up to 4096
-	ErrAt     int // deliver an error once this many bytes were delivered (-1 never)
-	EOFAt     int // premature EOF at this offset (-1 never)
-	ZeroReads int // remaining (0,nil) reads allowed
+	Data        []byte
+	T           *tape.Tape
+	Profile     int // 0 whole, 1 single bytes, 2 up to 64, 3 up to 4096
+	ErrAt       int // deliver an error once this many bytes were delivered (-1 never)
+	EOFAt       int // premature EOF at this offset (-1 never)
+	ZeroReads   int // remaining (0,nil) reads allowed
 	EOFWithData bool
-	Delivered int
-	Fire      FireFunc
-	calls     int
-	firedErr  bool
+	Delivered   int
+	Fire        FireFunc
+	calls       int
+	firedErr    bool
 }
 
 func (r *Reader) Read(p []byte) (int, error) {
